@@ -42,6 +42,7 @@ func one(fs []*ssa.Function) *ssa.Function {
 }
 
 func c06(r *Report) {
+	defer c06Seed8(r)
 	defer c06Seed7(r)
 	p := r.P
 	r.Explanation = "Static decision of the admission protocol of the DAG: (1) ParseTransaction succeeds only through jws.Parse, the single-signature test, and every registered parse step, and the step table contains every declared step; each step's success return is gated by its own header/type/allow-list checks; (2) the production State is built with both verifiers and each verifier's success return is gated by its checks; (3) state.Add reaches the write transaction only through the read-transaction verification, and inside the write closure graph.add / writePayload are gated by the presence re-check and the payload-hash comparison, under the write lock; (4) dag.add / addSingle are reachable only from that closure and storage shelves are opened for writing only by the owner functions. Each obligation is a must-pass-through argument on the SSA control-flow graph (pass edges removed => effect unreachable) or a closed-world inventory of call sites."
